@@ -178,10 +178,15 @@ func init() {
 			c.guard("SEQ.FOR", func() { s.ruleForOnly(func(fc forCase) bool { return fc.postNil }) })
 			c.guard("SEQ.COMBINE", s.ruleCombine)
 			c.guard("SEQ.SUSPEND", s.ruleSuspend)
+			// "every remaining element": a delegate that has reported exhaustion delivers nothing more when it is
+			// delegated to again (a delegation starts with MoveNext)
+			c.guard("SEQ.GEN", s.ruleGenHist)
 			c.keep(func(o Obligation) bool {
 				switch o.Rule {
 				case "RW.FILEPASSES":
 					return strings.HasPrefix(o.Construct, "order of passes")
+				case "SEQ.GEN":
+					return strings.Contains(o.Construct, "MoveNext") || strings.Contains(o.Construct, "Current") || o.Construct == "coverage"
 				case "RW.DISPATCH", "RW.DEEPVISIT", "SEQ.LAZY":
 					return false
 				case "RW.FIELDCOV":
